@@ -165,12 +165,8 @@ impl Compiler {
             let mut asm = self.asm.clone();
             asm.root = node.clone();
             let mut env = if self.pre_eval_mode == PreEvalMode::Lsp {
-                #[cfg(feature = "native_sys")]
-                {
-                    Uiua::with_native_sys()
-                }
-                #[cfg(not(feature = "native_sys"))]
-                Uiua::with_safe_sys()
+                // System functions may run, but only on the backend the compiler was given
+                Uiua::with_backend(self.backend())
             } else {
                 Uiua::with_safe_sys()
             }
